@@ -134,12 +134,14 @@ def handle (j : Json) : Json :=
       | _ => []
     let outcome := if iret == "fail" then "fail" else if imsgs.isEmpty then "ok" else
       if imsgs.all (·.ok) then "ok" else if imsgs.all (fun m => !m.ok) then "fail" else "partial"
-    let cls := s!"{opName}:{outcome}:{fkind}"
-    Json.mkObj [("id", id), ("agree", diffs.isEmpty),
+    -- a pre-state that already violates C10 (reached through a known finding) is outside the
+    -- model's domain (the plugin may then refuse decrements): no correspondence claim, spec still evaluated
+    let cls := if preOk then s!"{opName}:{outcome}:{fkind}" else s!"skip-pre-inconsistent:{opName}"
+    Json.mkObj [("id", id), ("agree", diffs.isEmpty || !preOk),
       ("model", Json.mkObj [("diff", Json.arr (diffs.map Json.str).toArray), ("ret", mret),
                             ("msgs", Json.arr ((sortStr (ms.msgs.map msgKey)).map Json.str).toArray),
                             ("trace", if mtrace == itrace then Json.null else Json.arr (mtrace.map Json.str).toArray)]),
       ("spec", Json.arr ((c10 ++ c11 ++ c12).map Json.str).toArray), ("class", cls),
-      ("trivial", Json.bool (flt.isSome && !fired))]
+      ("trivial", Json.bool ((flt.isSome && !fired) || !preOk))]
 
 end Oracle.Cluster
